@@ -162,7 +162,11 @@ func (w *World) initBaseDecls() {
 	r.DeclareFunc("substr", []string{SStr, SInt, SInt}, SStr)
 	s := Var("s", SStr)
 	t := Var("t", SStr)
-	r.AddAxiom("strlen.nonneg", []string{"strlen"}, Forall([]*Term{s}, And(Ge(r.Apply("strlen", s), IntT(0)), Le(r.Apply("strlen", s), BigT(new(big.Int).SetUint64(1<<56)))), []*Term{r.Apply("strlen", s)}))
+	// NOTE (consistency): the universal axioms describe mathematical finite sequences / strings of unbounded length
+	// (model: a nil flag, a length n >= 0 and a total function Int -> elem). The address-space bound on lengths
+	// (<= 2^56) is NOT universal -- together with len(app(s,t)) = len s + len t it would be inconsistent -- it is
+	// assumed only for values whose length the program actually takes (the len builtin, range loops): lenBound.
+	r.AddAxiom("strlen.nonneg", []string{"strlen"}, Forall([]*Term{s}, Ge(r.Apply("strlen", s), IntT(0)), []*Term{r.Apply("strlen", s)}))
 	r.AddAxiom("strlen.empty", []string{"strlen"}, Forall([]*Term{s}, Eq(Eq(r.Apply("strlen", s), IntT(0)), Eq(s, r.StrLit(""))), []*Term{r.Apply("strlen", s)}))
 	u := Var("u", SStr)
 	r.AddAxiom("strcat.assoc", []string{"strcat"}, Forall([]*Term{s, t, u},
@@ -351,9 +355,8 @@ func (w *World) sliceSort(elem string) string {
 	a := Var("a", ArraySort(SInt, elem))
 	ln := func(x *Term) *Term { return r.Apply("len:"+name, x) }
 	at := func(x, j *Term) *Term { return r.Apply("at:"+name, x, j) }
-	maxInt := BigT(new(big.Int).SetUint64(1 << 56)) // address-space bound on lengths (assumption)
 	trig := []string{"len:" + name, "at:" + name, "mk:" + name, "app:" + name, "sub:" + name, name}
-	r.AddAxiom(name+".len", trig, Forall([]*Term{s}, And(Ge(ln(s), IntT(0)), Le(ln(s), maxInt)), []*Term{ln(s)}))
+	r.AddAxiom(name+".len", trig, Forall([]*Term{s}, Ge(ln(s), IntT(0)), []*Term{ln(s)}))
 	r.AddAxiom(name+".nil", []string{"nil:" + name}, Eq(ln(r.Apply("nil:"+name)), IntT(0)))
 	mk := r.Apply("mk:"+name, a, lo, hi)
 	r.AddAxiom(name+".mk.len", []string{"mk:" + name}, Forall([]*Term{a, lo, hi},
@@ -1075,3 +1078,6 @@ func (w *World) LookupFunc(key string) *ssa.Function {
 	}
 	return nil
 }
+
+// lenBound: the address-space bound assumed for a length the program takes at run time.
+var lenBound = BigT(new(big.Int).SetUint64(1 << 56))
